@@ -125,17 +125,23 @@ from .theory_compiler import CompilerTheory  # noqa: E402
 
 
 class ParseTheory(CompilerTheory):
-    """ANTLR parse-tree contexts of `predicateexpression` as the datatype PE (spec/control.smt2); accessor methods of the
-    generated context class (simplepredicate(), op, predicateexpression(i)) as selectors with presence conditions."""
+    """ANTLR parse-tree contexts of `predicateexpression` / `simplepredicate` / `termpredicate` as the datatypes PE / SP
+    (spec/control.smt2); accessor methods of the generated context classes (simplepredicate(), op, predicateexpression(i),
+    TRUE(), FAIL(), CUT(), termpredicate(), term()) as selectors with presence conditions; the term AST of a goal as TA."""
     COMPS = []
     NO_TERM_COMPS = True
 
     def mk_param(self, ex, st, n, sort, sub):
-        if sort == 'PE':
-            return SV('PE', ex.fresh('PE', n))
-        if sort == 'VSelf':
-            return SV('CSelf', None)
+        if sort in ('PE', 'SP'):
+            return SV(sort, ex.fresh(sort, n))
+        if sort in ('TP', 'TermCtx'):
+            return SV(sort, ex.fresh('Int', n))
         return CompilerTheory.mk_param(self, ex, st, n, sort, sub)
+
+    def mk_ret(self, ex, sort, e, st):
+        if sort == 'TA':
+            return SV('TA', e, {'nameatom': '(nameisatom %s)' % e})
+        return CompilerTheory.mk_ret(self, ex, sort, e, st)
 
     def attr_read(self, ex, base, attr, st, node):
         if base.sort == 'PE' and attr == 'op':
@@ -145,15 +151,31 @@ class ParseTheory(CompilerTheory):
         if base.sort == 'OptTok' and attr == 'text':
             ex.oblige(st, 'safety.op_present', NOT(base.meta['none']), 'safety')
             return [(st, SV('Str', base.e))]
+        if base.sort == 'TA' and attr == 'name':
+            ex.oblige(st, 'safety.attr.name_of_functor', '((_ is TAFun) %s)' % base.e, 'safety')
+            return [(st, SV('TAName', '(tafname %s)' % base.e, {'isatom': base.meta.get('nameatom', 'false')}))]
+        if base.sort == 'TA' and attr == 'args':
+            ex.oblige(st, 'safety.attr.args_of_functor', '((_ is TAFun) %s)' % base.e, 'safety')
+            return [(st, SV('TAL', '(tafargs %s)' % base.e))]
+        if base.sort == 'TAName' and attr == 'value':
+            ex.oblige(st, 'safety.attr.value_of_atom', base.meta['isatom'], 'safety')
+            return [(st, SV('Str', base.e))]
         return CompilerTheory.attr_read(self, ex, base, attr, st, node)
 
+    def isinstance(self, ex, v, cls, st, node):
+        if v.sort == 'TA' and cls in ('Atom', 'Functor'):
+            return '((_ is %s) %s)' % ('TAAtom' if cls == 'Atom' else 'TAFun', v.e)
+        if v.sort == 'TAName' and cls == 'Atom':
+            return v.meta['isatom']
+        return CompilerTheory.isinstance(self, ex, v, cls, st, node)
+
     def truthy(self, ex, v):
-        if v.sort == 'OptTok':
+        if v.sort in ('OptTok', 'OptTP'):
             return NOT(v.meta['none'])
         return None
 
     def is_none(self, ex, other, st):
-        if other.sort in ('OptSP', 'OptTok'):
+        if other.sort in ('OptSP', 'OptTok', 'OptTP'):
             return other.meta['none']
         return None
 
@@ -162,9 +184,21 @@ class ParseTheory(CompilerTheory):
             return '((_ is PESimple) %s)' % a.e
         return CompilerTheory.equal(self, ex, e, op, a, b, st)
 
+    def apply_name(self, ex, e, name, args, st):
+        if name == 'Functor' and len(args) == 2 and args[0].sort == 'TA' and args[1].sort == 'PyList' and not args[1].meta['items']:
+            # Functor(atom, []): the name object is the Atom passed in
+            ex.oblige(st, 'safety.functor_name_is_atom', '((_ is TAAtom) %s)' % args[0].e, 'safety')
+            return [(st, SV('TA', '(TAFun (taval %s) tanil)' % args[0].e, {'nameatom': 'true'}))]
+        if name == 'len' and len(args) == 1 and args[0].sort == 'TAL':
+            return [(st, SV('Int', '(talen %s)' % args[0].e))]
+        if name == 'Predicate' and len(args) == 1 and args[0].sort == 'TA':
+            ex.oblige(st, 'safety.predicate_of_functor', AND('((_ is TAFun) %s)' % args[0].e, args[0].meta.get('nameatom', 'false')), 'safety')
+            return [(st, SV('Body', '(predof %s)' % args[0].e))]
+        return CompilerTheory.apply_name(self, ex, e, name, args, st)
+
     def apply_method(self, ex, e, base, meth, args, st):
+        b = base.e
         if base.sort == 'PE':
-            b = base.e
             if meth == 'simplepredicate' and not args:
                 return [(st, SV('OptSP', '(pesp %s)' % b, {'none': NOT('((_ is PESimple) %s)' % b)}))]
             if meth == 'predicateexpression' and not args:
@@ -176,13 +210,24 @@ class ParseTheory(CompilerTheory):
                     return [(st, SV('PE', ITE('((_ is PENeg) %s)' % b, '(pen %s)' % b, ITE('((_ is PEBin) %s)' % b, '(pel %s)' % b, '(pep %s)' % b))))]
                 ex.oblige(st, 'safety.child1_present', '((_ is PEBin) %s)' % b, 'safety')
                 return [(st, SV('PE', '(per %s)' % b))]
+        if base.sort == 'SP' and not args:
+            tok = {'TRUE': 'SPTrue', 'FAIL': 'SPFail', 'CUT': 'SPCut'}
+            if meth in tok:
+                return [(st, SV('OptTok', smt_str(meth), {'none': NOT('((_ is %s) %s)' % (tok[meth], b))}))]
+            if meth == 'termpredicate':
+                return [(st, SV('OptTP', '(sptp %s)' % b, {'none': NOT('((_ is SPTerm) %s)' % b)}))]
+        if base.sort == 'TP' and meth == 'term' and not args:
+            return [(st, SV('TermCtx', b))]
         return CompilerTheory.apply_method(self, ex, e, base, meth, args, st)
 
     def coerce(self, ex, a, want, st):
         if want == 'SP' and a.sort == 'OptSP':
             ex.oblige(st, 'safety.simplepredicate_present', NOT(a.meta['none']), 'safety')
             return SV('SP', a.e)
+        if want == 'TP' and a.sort == 'OptTP':
+            ex.oblige(st, 'safety.termpredicate_present', NOT(a.meta['none']), 'safety')
+            return SV('TP', a.e)
         return CompilerTheory.coerce(self, ex, a, want, st)
 
     def smt_sort(self, sort):
-        return {'SP': 'Int', 'Label': 'Int'}.get(sort)
+        return {'TP': 'Int', 'TermCtx': 'Int', 'Label': 'Int'}.get(sort)
